@@ -5,21 +5,27 @@
 B=${VERIF_BUILD:-/verif/.build}
 N=${1:-1500}
 REPS=${2:-2}
+PROPS=${3:-}
 /verif/build.sh || exit 2
+# private copy of the binary: a rebuild while the self-test runs must not mix two versions
+mkdir -p $B/selftest; cp $B/vsim $B/selftest/vsim.$$; BIN=$B/selftest/vsim.$$
+[ -z "$PROPS" ] && PROPS=$($BIN list | sort)
 rc=0
-for p in $($B/vsim list | sort); do
+for p in $PROPS; do
   ref=""
   for procs in 1 4 16; do
     for rep in $(seq 1 $REPS); do
       out=$B/selftest/$p/p${procs}_r${rep}
       rm -rf $out; mkdir -p $out
-      $B/vsim run -prop $p -seed 7 -worker 1 -workers 3 -maxruns $N -seconds 600 -procs $procs -out $out -replays $out/replays -known /verif/known_findings.json >/dev/null 2>$out/err
+      $BIN run -prop $p -seed 7 -worker 1 -workers 3 -maxruns $N -seconds 600 -procs $procs -out $out -replays $out/replays -known /verif/known_findings.json >/dev/null 2>$out/err
       h=$(python3 -c "
 import json,hashlib,sys
 d=json.load(open('$out/worker_1.json'))
 s=json.dumps([d['hashes'],sorted(d['stats'].items()),d['runs'],d['steps']],sort_keys=True)
 print(hashlib.sha256(s.encode()).hexdigest()[:16], d['runs'], len(d['hashes']))")
       if [ -z "$ref" ]; then ref="$h"; fi
+      runs=$(echo $h | cut -d' ' -f2)
+      if [ "$runs" -lt $((N/3)) ]; then echo "INCONCLUSIVE $p procs=$procs rep=$rep: wall budget reached after $runs of $((N/3)) runs"; continue; fi
       if [ "$h" != "$ref" ]; then echo "NONDETERMINISTIC $p procs=$procs rep=$rep: $h vs $ref"; rc=2; fi
     done
   done
